@@ -245,6 +245,25 @@ where
     }
 
     /// Helper to check if VirtioFeature enabled
+    /// Remove the vring's current kick descriptor from its worker's epoll set.
+    fn unregister_vring_kick(&self, vring: &T::Vring, index: u8) {
+        let vring_state = vring.get_ref();
+        if let Some(fd) = vring_state.get_kick() {
+            for (thread_index, queues_mask) in self.queues_per_thread.iter().enumerate() {
+                let shifted_queues_mask = queues_mask >> index;
+                if shifted_queues_mask & 1u64 == 1u64 {
+                    let evt_idx = queues_mask.count_ones() - shifted_queues_mask.count_ones();
+                    let _ = self.handlers[thread_index].unregister_event(
+                        fd.as_raw_fd(),
+                        EventSet::IN,
+                        u64::from(evt_idx),
+                    );
+                    break;
+                }
+            }
+        }
+    }
+
     fn check_feature(&self, feat: VhostUserVirtioFeatures) -> VhostUserResult<()> {
         if self.acked_features & feat.bits() != 0 {
             Ok(())
@@ -469,6 +488,13 @@ where
             .get(index as usize)
             .ok_or(VhostUserError::InvalidParam)?;
 
+        // A ring that is already started has its kick descriptor in the worker's epoll set.
+        // Take the old descriptor out before it is replaced, so that the new one can take its place.
+        let started = vring.get_ref().get_queue().ready();
+        if started {
+            self.unregister_vring_kick(vring, index);
+        }
+
         // SAFETY: EventFd requires that it has sole ownership of its fd. So
         // does File, so this is safe.
         // Ideally, we'd have a generic way to refer to a uniquely-owned fd,
@@ -477,6 +503,8 @@ where
 
         if self.vring_needs_init(vring) {
             self.initialize_vring(vring, index)?;
+        } else if started {
+            self.update_vring_registration(vring, index)?;
         }
 
         Ok(())
